@@ -89,9 +89,11 @@ MoveOK(ev) ==
     [] op = "extract_u" -> Eq(res, ExtractUSem(Pre(O(ev, 2))))
     [] op = "extract_l" -> Eq(res, ExtractLSem(Pre(O(ev, 2))))
     [] op = "set_ui" -> Eq(res, SetUiSem(Pre(O(ev, 1)), ev.p.v))
+    [] op = "prog_new" -> LET A0 == Pre(O(ev, 1)) IN      \* a step of a Store program: fresh storage is zero (C14), then the pattern is written
+                          IsZero(A0) /\ Eq(res, IF ev.p.seed = 0 THEN Zero(A0.m, A0.n) ELSE Pat(A0.m, A0.n, ev.p.seed))
     [] op \in {"randomize", "randomize_custom"} -> SameDims(res, Pre(O(ev, 1)))     \* contents unspecified: frame and padding are judged
 MoveFamily == {"add", "_add", "transpose", "copy", "copy_row", "submatrix", "concat", "stack",
-               "extract_u", "extract_l", "set_ui", "randomize", "randomize_custom"}
+               "extract_u", "extract_l", "set_ui", "randomize", "randomize_custom", "prog_new"}
 
 \* row/column operations (C13): operand 1 = the matrix operated on in place
 RowOpsOK(ev) ==
